@@ -4,7 +4,8 @@
    [check_struct] mirrors helpers.go Check (as repaired, see KNOWN_FINDINGS),
    [build_type] BuildType, [wrap] Wrap. *)
 From JV Require Import Model.Base Model.GoTime Gen.TypeGo Model.Schema Model.Value
-  Model.Wrapper Proofs.C20Facts Proofs.C20Safe Proofs.C20Rels.
+  Model.Strconv Model.Json Model.SoftRes Model.Wrapper Model.WrapCopy Model.Resource Model.Marshal
+  Proofs.C20Facts Proofs.C20Safe Proofs.C20Rels Proofs.C20Copy Proofs.C20Marshal.
 
 (* if Check rejects it, BuildType returns an error and Wrap refuses it *)
 Theorem C20_reject : forall d vals,
@@ -79,8 +80,51 @@ Theorem C20_tagged_fields_all_present : forall typ d rels,
 Proof. exact tagged_fields_all_present. Qed.
 Print Assumptions C20_tagged_fields_all_present.
 
-(* NOT PROVED here (correspondence + oracle): Copy / New / marshaling of an
-   accepted struct. *)
+(* Copy, New and MarshalResource of an instance of an accepted struct
+   succeed, whatever values its fields hold ([slot_typed]: a Go struct's
+   tagged fields hold values of their declared types) and whatever other
+   fields the struct has.  PARTIAL: for struct types whose own name is not a
+   resource tag (the ID field's api tag is not attr / rel / rel,...: such a
+   type would list its ID among its attributes or relationships); those are
+   covered by the correspondence cases and the oracle only. *)
+Theorem C20_copy_new_safe_partial : forall d vals w,
+  check_struct d = true -> NoDup (map sf_name d) ->
+  (forall f, In f d -> is_id_field f = true -> is_res_tag (sf_api f) = false) ->
+  length vals = length d -> Forall2 slot_typed d vals ->
+  wrap d vals = Ok w ->
+  (exists w', wrapper_copy w = Ok w' /\ w_desc w' = d /\ w_typ w' = w_typ w /\
+              w_attrs w' = w_attrs w /\ w_rels w' = w_rels w) /\
+  (exists w0, wrapper_new w = Ok w0).
+Proof. exact copy_checked_ok. Qed.
+Print Assumptions C20_copy_new_safe_partial.
+
+Theorem C20_marshal_safe_partial : forall e d vals w prepath fields reldata,
+  check_struct d = true -> NoDup (map sf_name d) ->
+  (forall f, In f d -> is_id_field f = true -> is_res_tag (sf_api f) = false) ->
+  length vals = length d -> Forall2 slot_typed d vals ->
+  wrap d vals = Ok w ->
+  exists j, marshal_resource e (RWrap w) prepath fields reldata = Ok j.
+Proof. exact marshal_checked_ok. Qed.
+Print Assumptions C20_marshal_safe_partial.
+
+Example c20_copy_example :
+  let d := [mkSField "ID" (GTAttr 1 false) "id" "things" true;
+            mkSField "A" (GTAttr 3 true) "a" "attr" true;
+            mkSField "X" (GTOther "map[string]int") "x" "" true;
+            mkSField "R" GTStrs "r" "rel,other,inv" true;
+            mkSField "O" (GTAttr 1 false) "o" "rel,other" true] in
+  let vals := [VStr "id1"; VPtr 3 (Some (VInt 3 (-5))); VNil; VStrs false ["b"; "a"]; VStr "o1"] in
+  check_struct d = true /\ NoDup (map sf_name d) /\
+  (forall f, In f d -> is_id_field f = true -> is_res_tag (sf_api f) = false) /\
+  Forall2 slot_typed d vals /\
+  is_ok (bind (wrap d vals) wrapper_copy) = true.
+Proof.
+  cbn zeta. split; [reflexivity|]. split; [repeat constructor; cbn; intuition discriminate|].
+  split.
+  { intros f [<-|[<-|[<-|[<-|[<-|[]]]]]]; cbn; intros H; try discriminate; reflexivity. }
+  split; [|reflexivity].
+  repeat (apply Forall2_cons; [intros H; try discriminate H; split; reflexivity|]). apply Forall2_nil.
+Qed.
 
 Example c20_examples :
   let id := mkSField "ID" (GTAttr 1 false) "id" "things" true in
